@@ -17,7 +17,7 @@ dest   ::= ["f", arr, i] | ["newf", name] | ["newr", name]
 from typing import Any, Dict, List
 
 from .refsem import Unspecified
-from .symx import PathAbort, SymInt
+from .symx import PathAbort, SymInt, cur
 
 GATES = {"X": "x", "Y": "y", "Z": "z", "H": "h", "K": "k", "S": "s", "T": "t"}
 
@@ -81,8 +81,8 @@ class RefInterp:
         if k == "k":
             return h[1]
         if k == "f":
-            i = self.idx(h[2], scope)
             arr = self.arrays[h[1]]
+            i = self._pin(self.idx(h[2], scope), len(arr))
             if not (0 <= i < len(arr)):
                 raise Unspecified("index out of range in host program")
             v = arr[i]
@@ -99,13 +99,26 @@ class RefInterp:
         return v
 
     def idx(self, i, scope):
-        return scope["ix"] if isinstance(i, list) else i
+        if not isinstance(i, list):
+            return i
+        if i[0] == "ix":
+            return scope["ix"]
+        # the index is itself a handle (an array entry or a register): its current value, taken case by case when symbolic
+        return self.val(i, scope)
+
+    def _pin(self, i, n):
+        """a symbolic index: programs that index outside the array are outside the property (assumed away), the rest is taken case by case"""
+        if isinstance(i, SymInt):
+            import z3
+            cur().assume_expr(z3.And(i.e >= 0, i.e < n))
+            i = cur().concretize(i, 8)
+        return i
 
     def store(self, h, v, scope):
         k = h[0]
         if k == "f":
-            i = self.idx(h[2], scope)
             arr = self.arrays[h[1]]
+            i = self._pin(self.idx(h[2], scope), len(arr))
             if not (0 <= i < len(arr)):
                 raise Unspecified("index out of range in host program")
             arr[i] = v
@@ -211,7 +224,9 @@ class SdkInterp:
         if k == "f":
             i = h[2]
             if isinstance(i, list):
-                return self.arrays[h[1]].get_future_index(scope["ixreg"])
+                if i[0] == "ix":
+                    return self.arrays[h[1]].get_future_index(scope["ixreg"])
+                return self.arrays[h[1]].get_future_index(self.h(i, scope))      # indexed by another handle
             return self.arrays[h[1]].get_future_index(i)
         if k == "r":
             return self.regs[h[1]]
